@@ -18,6 +18,7 @@ SHIMS = {
     'A-vec': 'vstd Vec specifications, plus <[T]>::reverse reverses the view',
     'A-nom': 'nom/nom_locate primitives and combinators have their documented sequencing semantics (see DESIGN 2.3)',
     'A-packrat': '#[packrat_parser] returns what the body would return (that is C17), #[recursive_parser] only turns some calls into failures',
+    'A-pplex': 'WHAT TEXT each production of the preprocessor grammar accepts (where a macro body or a default text ends, what separates arguments, what is a comment, a string, an escaped identifier) is behaviour of nom closures no contract here reaches; the arms are verified against grammar invariants of the tree those productions build. The assumption is backed for the pinned text of the productions only (suite, golden files, bounded stand-ins): gvc.assumed compares each listed production with its committed fingerprint (gvc/baseline.json) and makes the property UNDECIDED when one differs',
     'A-strconcat': 'str_concat::concat(a,b) is Ok(a++b) iff b starts where a ends',
 }
 
@@ -62,7 +63,7 @@ PROPS['C09'] = dict(
 PROPS['C18'] = dict(
     title='strip_comments',
     units=['depth', 'wrap', 'arms', 'rtmu', 'split'],
-    shims=['A-glue'],
+    shims=['A-glue', 'A-pplex'],
     design='DESIGN.md 3/C18',
     technique='contract-based deductive verification (Verus): flag forwarding on the recursion skeleton and at the entry wrappers; arm-guard obligations on the lifted match arms',
     level_text='Deductive proof that strip_comments is forwarded unchanged at every recursive call site and entry wrapper (all four recursion sites, both flags kept apart by parameter name), and that only comment arms depend on the flag.',
@@ -85,7 +86,7 @@ ARMS_NOTE = 'The arms of preprocess_str are verified one by one (rule R-arm); th
 PROPS['C04'] = dict(
     title='conditional compilation',
     units=['arms', 'pphelp', 'glue'],
-    shims=['A-glue', 'A-hashmap', 'A-str', 'A-node'],
+    shims=['A-glue', 'A-hashmap', 'A-str', 'A-node', 'A-pplex'],
     design='DESIGN.md 3/C04',
     technique='contract-based deductive verification (Verus) of the verbatim IfdefDirective / IfndefDirective arms against an IEEE 22.6 selection spec function, loop invariant over the `elsif chain',
     level_text='Deductive proof, for every chain length, every define table and every combination of condition outcomes, that on entering `ifdef/`ifndef the arm puts on the skip list the directive keywords, the identifiers and every group except the one IEEE 1800-2017 22.6 selects (first branch whose name is defined, `else if none); table mutations happen only in arms of the same match (un-skipped events).',
@@ -95,7 +96,7 @@ PROPS['C04'] = dict(
 PROPS['C05'] = dict(
     title='macro expansion',
     units=['arms', 'depth', 'split', 'rtmu', 'pphelp'],
-    shims=['A-glue', 'A-hashmap', 'A-str', 'A-arith'],
+    shims=['A-glue', 'A-hashmap', 'A-str', 'A-arith', 'A-pplex'],
     design='DESIGN.md 3/C05',
     technique='contract-based deductive verification (Verus) of the verbatim TextMacroUsage arm and of the actual/formal binding block of resolve_text_macro_usage',
     level_text='Deductive proof that the usage arm pushes the expansion with the origin of the definition, adopts the table that comes back, propagates DefineNotFound/DefineNoArgs/DefineArgNotFound unchanged, suppresses the usage subtree and copies the trailing white space with its own range; that the binding block maps the i-th formal to the i-th actual, its default when omitted, and reports the three named errors; that split_text equals a reference tokeniser derived from 22.5.1 (identifier/other runs, string literals intact, one-line comments dropped, `\" closes a run); and that nested preprocessing receives the live define table.',
@@ -105,7 +106,7 @@ PROPS['C05'] = dict(
 PROPS['C06'] = dict(
     title='pass-through',
     units=['arms', 'pt', 'glue', 'loc'],
-    shims=['A-glue', 'A-str'],
+    shims=['A-glue', 'A-str', 'A-pplex'],
     design='DESIGN.md 3/C06',
     technique='contract-based deductive verification (Verus) of the directive-free emission arms (copy exactly the bytes of their own leaf, identity origin) plus once-only obligations',
     level_text='Deductive proof that the NotDirective, Comment, StringLiteral and EscapedIdentifier arms append exactly the bytes of the locate they copy and record the identical source range, and that kept-directive arms suppress their trailing white space so nothing is emitted twice.',
@@ -115,7 +116,7 @@ PROPS['C06'] = dict(
 PROPS['C10'] = dict(
     title='include',
     units=['arms', 'depth', 'wrap', 'rtmu', 'glue', 'prologue'],
-    shims=['A-glue', 'A-path/fs', 'A-hashmap'],
+    shims=['A-glue', 'A-path/fs', 'A-hashmap', 'A-pplex'],
     design='DESIGN.md 3/C10',
     technique='contract-based deductive verification (Verus) of the verbatim IncludeCompilerDirective arm incl. the include-path search loop; nested preprocessing as an uninterpreted function of named parameters',
     level_text='Deductive proof for any number and order of include paths that the file used is the given path when absolute or existing, else the first include path that contains it, else the given path; that the nested run receives the live define table, ignore_include=false, include_depth+1, that its table is adopted and its text/origins merged, that errors are wrapped once in Include, that a same-line item yields IncludeLine, that the arm fires iff !ignore_include, and that the table handed to a (nested) run reaches its working table with every entry intact (prologue clause caller-entries-win).',
@@ -125,7 +126,7 @@ PROPS['C10'] = dict(
 PROPS['C11'] = dict(
     title='define table',
     units=['arms', 'prologue', 'rtmu', 'wrap', 'depth', 'glue', 'pphelp'],
-    shims=['A-glue', 'A-hashmap', 'A-str'],
+    shims=['A-glue', 'A-hashmap', 'A-str', 'A-pplex'],
     design='DESIGN.md 3/C11',
     technique='contract-based deductive verification (Verus) of the verbatim `define / `undef / `undefineall arms and of the table adoption at include and expansion',
     level_text='Deductive proof that the table is seeded with the 15 coverage constants and then every caller entry (caller wins), that `undef removes exactly the named entry, `undefineall empties the table, `define X inserts or replaces exactly X with an entry recording the formal names, default texts and body text as written (origin = defining file and body range) unless X is predefined, and that no other arm writes the table except adopting the one returned by an include or an expansion.',
@@ -214,11 +215,12 @@ PROPS['C19'] = dict(
 )
 KANI = dict(module='vx.kanieng', tier='thorough')
 PROPS['C03']['engines'] = [KANI, dict(module='vx.boundeng')]
-PROPS['C18']['engines'] = [dict(module='gvc.engine', args=dict(analyses=('pptotal',))), REPLAY]
-PROPS['C05']['engines'] = [dict(module='vx.boundeng'), dict(module='gvc.engine', args=dict(analyses=('shadow', 'kwsites')))]
-PROPS['C11']['engines'] = [dict(module='gvc.engine', args=dict(analyses=('shadow', 'kwsites')))]
-PROPS['C04']['engines'] = [dict(module='gvc.engine', args=dict(analyses=('frame',))), REPLAY]
-PROPS['C06']['engines'] = [dict(module='gvc.engine', args=dict(analyses=('pptotal', 'faithful', 'shadow'))), dict(module='vx.boundeng'), REPLAY]
+PROPS['C18']['engines'] = [dict(module='gvc.engine', args=dict(analyses=('pptotal', 'assumed'))), REPLAY]
+PROPS['C05']['engines'] = [dict(module='vx.boundeng'), dict(module='gvc.engine', args=dict(analyses=('shadow', 'kwsites', 'assumed')))]
+PROPS['C11']['engines'] = [dict(module='gvc.engine', args=dict(analyses=('shadow', 'kwsites', 'assumed')))]
+PROPS['C10']['engines'] = [dict(module='gvc.engine', args=dict(analyses=('assumed',)))]
+PROPS['C04']['engines'] = [dict(module='gvc.engine', args=dict(analyses=('frame', 'assumed'))), REPLAY]
+PROPS['C06']['engines'] = [dict(module='gvc.engine', args=dict(analyses=('pptotal', 'faithful', 'shadow', 'assumed'))), dict(module='vx.boundeng'), REPLAY]
 
 NOT_APPLICABLE = {
     'C02': 'the oracle is the set of Annex A sentences and their production labels; a contract able to state it would restate the 1.3k-production grammar, and PEG ordered choice over it is not a per-function property (DESIGN.md 4)',
